@@ -555,6 +555,15 @@ package input
 // getters never collide with each other, with the API of the embedded *container.Container, or with its field name.
 // (ValidateServices accepts only if ValidateServiceGetter accepts every non-todo service and no two of them share a
 // getter: contract clauses accept_sound and accept_sound_unique_getters above.)
+// Acceptance by ValidateServices, restated over service names (what a reader of the YAML sees): two different
+// accepted services that get getter methods never declare the same getter.
+//@ lemma accepted_getters_distinct(i Input, n1 string, n2 string)
+//@   property C13 C11
+//@   requires ValidateServices(i) == nil
+//@   requires n1 in i.Services && n2 in i.Services && n1 != n2
+//@   requires hasGetter(i.Services[n1]) && hasGetter(i.Services[n2])
+//@   ensures [distinct_getters] *i.Services[n1].Getter != *i.Services[n2].Getter
+
 //@ lemma no_getter_collisions(s1 Service, s2 Service)
 //@   property C13 C11
 //@   requires ValidateServiceGetter(s1) == nil && ValidateServiceGetter(s2) == nil && s1.Getter != nil && s2.Getter != nil
